@@ -298,6 +298,10 @@ func joinHorizon(sc *JoinSc) int64 {
 
 	if sc.Stop != nil {
 		t += sc.Stop.AtNs
+
+		if sc.Stop.AtStep > 0 {
+			t += 5000 // a step wait in a silent system is released after 5 us
+		}
 	}
 
 	return 4*t + 10_000
@@ -1136,6 +1140,13 @@ func checkJoinStop(v *Verdict, sc *JoinSc, jv joinView, res *simrt.Result) {
 	}
 
 	facts := map[string]any{"cancel": sc.Stop.Cancel, "never_release": sc.Stop.NeverRel, "reader_stopped": sc.Stop.StopReader}
+
+	for _, r := range res.Hist {
+		if (r.Seq == jv.stopCall || r.Seq == jv.cancelSeq) && res.HorizonHit && sc.Horizon-r.T < 1000 {
+			v.probe("stop-too-close-to-the-horizon-to-judge")
+			return
+		}
+	}
 
 	if jv.stopCall >= 0 && jv.stopRet < 0 {
 		v.failFacts("stop-not-returned", facts, "Stop() was called and did not return within %dns of simulated time (%s)", sc.Horizon, stuck(res))
